@@ -129,9 +129,18 @@ def run(ctx):
             if str(a["mcs_id"]) != str(a["id"]):
                 ctx.fail("result-attached-to-another-reaction", case, {"row_id": a["id"], "data_id": a["mcs_id"]})
             tot = sum(mcs.natoms(s) for s in a["mcs_results"])
+            # a search job that hit its wall-clock limit returns an empty record, but its worker thread keeps running and may fill that
+            # record later: what the observer saw at return time is then not what the selection sees.  Such rows are not comparable.
+            timed_out = any((j["issue"] or "") == "MCS search terminated by timeout." for j in myjobs.values())
             if not any(j["mcs_results"] == a["mcs_results"] for j in myjobs.values()):
+                if timed_out:
+                    ctx.timing_unstable += 1
+                    continue
                 ctx.fail("attached-data-not-own-job-result", case, {"attached": a["mcs_results"]})
             if not any(j["mcs_results"] == a["mcs_results"] and (j["issue"] or "") == "" for j in myjobs.values()):
+                if timed_out:
+                    ctx.timing_unstable += 1
+                    continue
                 ctx.fail("attached-data-from-a-job-that-reported-an-issue", case, {"attached": a["mcs_results"], "jobs": myjobs})
             if any(sum(mcs.natoms(s) for s in j["mcs_results"]) > tot for j in myjobs.values() if (j["issue"] or "") == ""):
                 ctx.fail("retained-condition-not-largest", case, {"retained_total": tot, "totals": {c: sum(mcs.natoms(s) for s in j["mcs_results"]) for c, j in myjobs.items()}})
@@ -144,7 +153,8 @@ def run(ctx):
                     extra, missing = got - want, want - got
                     # the list is read from the row's 'reactants'/'products' keys, which Validator.check refreshes BEFORE it resets an
                     # unsolved reaction: after the both-side shortcut they still hold the inserted water molecules
-                    stale = (not missing) and set(extra) == {"O"}
+                    keyside = (a.get("side_keys") or [None, None])[0 if a["carbon"] in ("products", "balanced") else 1]
+                    stale = (not missing) and (set(extra) == {"O"} or (keyside is not None and pipe.canon_multiset(keyside) == got))
                     ctx.fail("stale-side-keys-after-water-step" if stale else "molecule-list-not-the-carbon-richer-side", case,
                              {"side": side, "sorted_reactants": a["sorted_reactants"]})
                 for smi, pat in zip(a["sorted_reactants"], a["mcs_results"]):
